@@ -156,6 +156,15 @@ STRENGTHENED.update({
  "R7-C07-1": "new C07.R5: hex.Decode interpreted on the empty text, one-character texts, texts that are not hexadecimal or of odd length, every truncation of the text of a Point message and texts with trailing characters — an error each time, no panic",
  "R7-C13-1": "C13.R4 gained a third answer pattern (one vertex may be skipped, two may not) under which the simplicity test is asked, and requires that a question about a shortcut inside member i is asked of member i's own curves only",
 })
+STRENGTHENED.update({
+ "R7-C04-1": "C04.R1 box-box facet: differences and products of ordinates followed by sign under IEEE-754 (0·∞ is NaN), boxes reaching to infinity among the inputs: decided as a violation on two strips sharing an unbounded edge (was undecided)",
+ "R4-C04-1": "as R7-C04-1: decided as a violation (was undecided)",
+ "R7-C17-1": "C17.R1 float classes: the encoder followed in ten regions of the float64 line; decided as a violation for values beyond the int64 range (was undecided)",
+ "R4-C17-1": "as R7-C17-1 (overflow beyond 2^63, `0` for negative zero): decided as a violation (was undecided)",
+ "R5-C17-1": "as R7-C17-1: decided as a violation (was undecided)",
+ "R3-C17-1": "as R7-C17-1: decided as a violation (was undecided)",
+ "C17-1": "as R7-C17-1: decided as a violation (was undecided)",
+})
 NOT_CAUGHT = {
  "R2-C08-2": "still missed: spherical transverse Mercator takes the hemisphere from sign(y) instead of from the foot-point latitude — formula-level",
 }
